@@ -82,6 +82,12 @@ class MessageManager(interfaces.TokenInterface, interfaces.MessageManager):
             cancellable.cancel()
         self._active_exchanges = None
 
+        for _mid, handle in self._piggyback_opportunities.values():
+            # Their requests' renderers are cancelled by the token manager;
+            # the empty ACKs would hit a transport that is already closed.
+            handle.cancel()
+        self._piggyback_opportunities = {}
+
         await self.message_interface.shutdown()
 
     #
